@@ -89,9 +89,14 @@ def run(ck):
     done = 0
     tries = 0
     try:
+        directed = hiergen.directed()
+        ck.extra["directed_special_member_programs"] = len(directed)
+        n_prog += len(directed)
         while done < n_prog and tries < n_prog * 8:
             tries += 1
-            if tries % 6 == 0:
+            if tries <= len(directed):
+                ks = directed[tries - 1]
+            elif tries % 6 == 0:
                 ks = hiergen.gen_covariant(rng, rng.randrange(2, 6))
             elif tries % 6 in (1, 2):
                 # explicitly defaulted members over bases and members whose own members are deleted or inaccessible; class templates
